@@ -620,9 +620,15 @@ func toDeleteNotification(n *pb.Notification, timestamp int64) *pb.Notification 
 	case n.GetAtomic():
 		d.Delete = []*pb.Path{{Elem: prefix.GetElem(), Element: prefix.GetElement()}}
 	case len(prefix.GetElem()) > 0 || len(path.GetElem()) > 0:
-		d.Delete = []*pb.Path{{Elem: append(prefix.GetElem(), path.GetElem()...)}}
+		// Build the path in a fresh slice: the prefix may be shared between
+		// notifications and must not be appended to in place.
+		elems := make([]*pb.PathElem, 0, len(prefix.GetElem())+len(path.GetElem()))
+		elems = append(elems, prefix.GetElem()...)
+		d.Delete = []*pb.Path{{Elem: append(elems, path.GetElem()...)}}
 	default:
-		d.Delete = []*pb.Path{{Element: append(prefix.GetElement(), path.GetElement()...)}}
+		elements := make([]string, 0, len(prefix.GetElement())+len(path.GetElement()))
+		elements = append(elements, prefix.GetElement()...)
+		d.Delete = []*pb.Path{{Element: append(elements, path.GetElement()...)}}
 	}
 	return d
 }
